@@ -36,6 +36,7 @@ theorem rx_unmatched (v : Variant) (hv : v.routing = 1) (hs : v.snap = true) (h 
   rw [hur]
   simp only
   rw [miscRx_snap v hv hs, oneShotSnap_chan hsc]
+  rfl
 
 /-- an accepted read/write reply: exactly one `_param_updated` (one fan-out), then the release -/
 theorem rx_rw_cases (v : Variant) (hv : v.routing = 1) (hs : v.snap = true) (h : Host) (p : Pkt) (hc : p.chan = 1 ∨ p.chan = 2) :
@@ -73,8 +74,13 @@ theorem Dev.handle_v2_any (d : Dev) (p : Pkt) : (d.handle p).1.v2 = d.v2 := by
   · unfold Dev.read; repeat' split
     all_goals rfl
   · split
-    · unfold Dev.write; repeat' split
-      all_goals rfl
+    · unfold Dev.write
+      split
+      · rfl
+      · split
+        · rfl
+        · simp only
+          split <;> rfl
     · split
       · unfold Dev.misc
         split
@@ -228,11 +234,11 @@ theorem stepX_invO (S2F : List Char → Except PyErr Nat) (v : Variant) (hv : v.
             obtain ⟨rfl, rfl⟩ := hstep
             refine ⟨by show (s.dev.handle p).1.v2 = v2; rw [Dev.handle_v2_any, hinv.dv2], hinv.useV2, hinv.updV2, ?_, rfl, ?_⟩
             · show txsOf (pre ++ [.tx p]) ++ (none : Option Pkt).toList ++ s.host.queue = _
-              rw [txsOf_append, enqsOf_append, ← List.append_nil (enqsOf pre)]
               have := hinv.fifo
               rw [hc] at this
-              simp only [List.append_nil] at this ⊢
-              rw [← this]; simp [txsOf, enqsOf]
+              rw [txsOf_append, enqsOf_append, show enqsOf [Out.tx p] = [] from rfl, show txsOf [Out.tx p] = [p] from rfl,
+                List.append_nil, ← this]
+              simp
             · obtain ⟨st, a1, a2, _⟩ := hinv.alt
               rw [hl] at a2
               have hst : st = none := by cases st <;> simp_all
